@@ -46,6 +46,10 @@ func DriverFile(s0 *spec.Spec, v Variant) string {
 	// the global parser, before PopContex() (user code that combines $n with
 	// the nested result before restoring the outer parser)
 	for i := range s.Rules {
+		if s.Rules[i].NoAct {
+			s.Rules[i].Action = ""
+			continue
+		}
 		t := s.Rules[i].Sem.Text()
 		var body string
 		switch {
@@ -78,10 +82,11 @@ func DriverFile(s0 *spec.Spec, v Variant) string {
 		var u strings.Builder
 		u.WriteString("\n")
 		for _, f := range s.Fields {
+			// initialisers: a value nobody assigned is 0 / "" in TypeScript as it is in Go
 			if FieldIsString(f) {
-				fmt.Fprintf(&u, "\t%s :string;\n", f)
+				fmt.Fprintf(&u, "\t%s :string = \"\";\n", f)
 			} else {
-				fmt.Fprintf(&u, "\t%s :number;\n", f)
+				fmt.Fprintf(&u, "\t%s :number = 0;\n", f)
 			}
 		}
 		s.Union = u.String()
